@@ -783,6 +783,255 @@ def run_per_axis(case):
     return bad, lines, cmps
 
 
+# ---------------------------------------------------------------------------------------------
+# noise sources ON, with a recording stand-in for `np.random` (family `rng`)
+#
+# NoisyDetector draws from the legacy global generator (`np.random.normal`, `np.random.poisson` inside `large_poisson`).
+# For the duration of every call into the detector these two functions are replaced by a stand-in that records its
+# arguments and returns `loc + scale*z` / `lam + d` for dyadic `z`, `d` drawn from a generator seeded by the case.  That
+# makes the whole pipeline (dark current -> photon noise -> flat field -> read noise -> reset) a deterministic function:
+# the oracle recomputes it in Fractions and also checks *what the real code asked the generator for* (order of the
+# calls, the expectation handed to the Poisson stage, loc/scale/size of the normal draws); the Lean model
+# (`pReadOutRng`, op `readrng`) recomputes image and Poisson expectation.  A second pass re-runs the history with the
+# real generator seeded twice: same seed => bit-identical images.
+
+class FakeRandom:
+    def __init__(self, seed):
+        self.rng = np.random.default_rng(seed)
+        self.calls = []
+
+    def _draw(self, n, lo, hi, bits):
+        return np.array([dyadic(self.rng, lo, hi, bits) for _ in range(n)], dtype=float)
+
+    def normal(self, loc=0.0, scale=1.0, size=None):
+        n = int(np.prod(size)) if size is not None else int(np.size(np.broadcast_arrays(loc, scale)[0]))
+        z = self._draw(n, -2, 2, 2)
+        if n:
+            self.calls.append({'fn': 'normal', 'loc': np.array(loc, dtype=float).ravel().tolist(), 'scale': np.array(scale, dtype=float).ravel().tolist(),
+                               'size': None if size is None else int(np.prod(size)), 'z': z.tolist()})
+        return np.asarray(loc, dtype=float) + np.asarray(scale, dtype=float) * z
+
+    def poisson(self, lam=1.0, size=None):
+        lam = np.array(lam, dtype=float)
+        d = np.array([float(self.rng.integers(-2, 4)) for _ in range(lam.size)])
+        if lam.size:
+            self.calls.append({'fn': 'poisson', 'lam': lam.ravel().tolist(), 'size': None if size is None else int(np.prod(size)), 'd': d.tolist()})
+        return lam + d.reshape(lam.shape)
+
+
+class patched_random:
+    """`with patched_random(fake):` — np.random.normal / poisson are the stand-in's inside the block"""
+    def __init__(self, fake):
+        self.fake = fake
+
+    def __enter__(self):
+        self.saved = (np.random.normal, np.random.poisson)
+        np.random.normal, np.random.poisson = self.fake.normal, self.fake.poisson
+        return self.fake
+
+    def __exit__(self, *a):
+        np.random.normal, np.random.poisson = self.saved
+        return False
+
+
+def gen_rng_case(rng, big):
+    ndim = 1 if rng.random() < 0.2 else 2
+    dims = [int(rng.integers(1, 4 if not big else 5)) for _ in range(ndim)]
+    case = {'fam': 'rng', 'dims': dims, 'delta': [float(rng.choice([0.5, 1.0, 2.0])) for _ in range(ndim)], 'zseed': int(rng.integers(0, 2 ** 31))}
+    if rng.random() < 0.4:
+        case['ss'] = [int(rng.integers(1, 4)) for _ in range(ndim)]
+        case['spell'] = str(rng.choice(['array', 'list']))
+        case['s'] = max(case['ss'])
+    else:
+        case['s'] = int(rng.choice([1, 1, 2, 3]))
+    npix = int(np.prod(dims))
+    nin = int(np.prod([d * f for d, f in zip(dims, factors(case))]))
+    case['ctor'] = {prm: gen_param(rng, prm, npix, off=bool(rng.random() < 0.3)) for prm in PARAMS}
+    ops = []
+    for _ in range(int(rng.integers(1, 8 if not big else 14))):
+        u = rng.random()
+        if u < 0.35:
+            ops.append(['read'])
+        elif u < 0.5:
+            prm = PARAMS[int(rng.integers(0, 4))]
+            ops.append(['set', prm, gen_param(rng, prm, npix, off=bool(rng.random() < 0.3))])
+        else:
+            data = [dyadic(rng, 0, 16, 3) for _ in range(nin)]
+            ops.append(['call' if rng.random() < 0.15 else 'int', 'plain' if rng.random() < 0.2 else 'field', data,
+                        float(rng.choice([dyadic(rng, 0, 4, 3), 1.0, 2.0])), float(rng.choice([1.0, dyadic(rng, 0, 2, 3), 2.0])), False])
+    ops.append(['read'])
+    if rng.random() < 0.5:
+        ops.append(['read'])
+    case['ops'] = ops
+    return case
+
+
+def run_rng_case(case):
+    """returns (bad, model lines, checks) — checks = [(index into the model lines, image, lam or None)]"""
+    import hcipy
+    bad, lines, checks = [], ['C17 reset'], []
+    dims = case['dims']
+    npix = int(np.prod(dims))
+    fake = FakeRandom(case['zseed'])
+    grid = hcipy.make_uniform_grid(dims, [d * n for d, n in zip(case['delta'], dims)])
+    st = {'dark': None, 'sigma': None, 'flat': None, 'photon': None}
+
+    def calls_since(k):
+        return fake.calls[k:]
+
+    def note(prm, spec, k0):
+        """oracle + book-keeping for a parameter given to the detector; the only draw allowed is the flat-field map"""
+        cs = calls_since(k0)
+        if prm == 'flat_field' and spec[0] == 'scalar':
+            if len(cs) != 1 or cs[0]['fn'] != 'normal' or cs[0]['loc'] != [1.0] or cs[0]['scale'] != [float(spec[1])] or cs[0]['size'] != npix:
+                bad.append(('flat-field-map-draw', 'flat_field = %r (a standard deviation) must draw one normal(1, %r, %d) map; the generator was asked for %r'
+                            % (spec[1], spec[1], npix, [(c['fn'], c.get('loc'), c.get('scale'), c.get('size')) for c in cs])))
+                return
+            want = [Fraction(1) + fr(spec[1]) * fr(z) for z in cs[0]['z']]
+            m = np.asarray(det.flat_field, dtype=float).ravel()
+            if m.shape != (npix,) or any(fr(a) != b for a, b in zip(m, want)):
+                bad.append(('flat-field-map-draw', 'flat_field = %r: the map in force is not 1 + %r*z for the deviates z that were drawn' % (spec[1], spec[1])))
+                return
+            st['flat'] = want
+        elif cs:
+            bad.append(('rng-consumed-by-setter', '%s = <%s> consumed random numbers: %r' % (prm, spec[0], [c['fn'] for c in cs])))
+            return
+        elif prm == 'flat_field':
+            st['flat'] = [fr(x) for x in spec[1]]
+        elif prm == 'include_photon_noise':
+            st['photon'] = bool(spec[1])
+        else:
+            vals = [fr(spec[1])] * npix if spec[0] == 'scalar' else [fr(x) for x in spec[1]]
+            st['dark' if prm == 'dark_current_rate' else 'sigma'] = vals
+        if prm == 'include_photon_noise':
+            lines.append('C17 set photon %d' % (1 if spec[1] else 0))
+        else:
+            lines.append('C17 set %s %s' % ({'flat_field': 'flat', 'dark_current_rate': 'dark', 'read_noise': 'sigma'}[prm],
+                                            '[' + ','.join(rat(v) for v in st[{'flat_field': 'flat', 'dark_current_rate': 'dark', 'read_noise': 'sigma'}[prm]]) + ']'))
+
+    c = case['ctor']
+    try:
+        with patched_random(fake):
+            det = hcipy.NoisyDetector(grid, dark_current_rate=param_value(c['dark_current_rate'], grid), read_noise=param_value(c['read_noise'], grid),
+                                      flat_field=param_value(c['flat_field'], grid), include_photon_noise=param_value(c['include_photon_noise'], grid),
+                                      subsampling=sub_arg(case))
+    except Exception as e:  # noqa
+        return [('constructor-raises', 'constructing the NoisyDetector raised %s: %s' % (type(e).__name__, str(e)[:100]))], lines, checks
+    lines.append('C17 new noisy %s %s 0 -' % (model_sub(case), '[' + ','.join(str(d) for d in dims[::-1]) + ']'))
+    k0 = 0
+    for prm in ('dark_current_rate', 'read_noise', 'flat_field', 'include_photon_noise'):      # the order of the assignments in __init__
+        note(prm, c[prm], k0 if prm == 'flat_field' else len(fake.calls))
+        if bad:
+            return bad, lines, checks
+    charge = [Fraction(0)] * npix
+    for op in case['ops']:
+        k0 = len(fake.calls)
+        if op[0] == 'set':
+            try:
+                with patched_random(fake):
+                    setattr(det, op[1], param_value(op[2], grid))
+            except Exception as e:  # noqa
+                bad.append(('setter-raises', '%s = <%s> raised %s: %s' % (op[1], op[2][0], type(e).__name__, str(e)[:100])))
+                break
+            note(op[1], op[2], k0)
+        if op[0] in ('int', 'call'):
+            _, ik, data, dt, w, _ = op
+            a = np.array(data, dtype=float)
+            try:
+                with patched_random(fake):
+                    det.integrate(hcipy.Field(a, det.input_grid) if ik == 'field' else a, dt, w)
+            except Exception as e:  # noqa
+                bad.append(('integrate-raises', 'integrate raised %s: %s' % (type(e).__name__, str(e)[:100])))
+                break
+            if calls_since(k0):
+                bad.append(('rng-consumed-by-integrate', 'integrate() consumed random numbers: %r' % [c_['fn'] for c_ in calls_since(k0)]))
+                break
+            f = fr(dt) * fr(w)
+            b = brute_bins([fr(x) for x in data], dims, factors(case))
+            charge = [q + x * f + d * f for q, x, d in zip(charge, b, st['dark'])]
+            lines.append('C17 int %s %s %s' % (rat_list(data), rat(dt), rat(w)))
+        if op[0] in ('read', 'call'):
+            k0 = len(fake.calls)
+            try:
+                with patched_random(fake):
+                    im = det.read_out()
+            except Exception as e:  # noqa
+                bad.append(('readout-raises', 'read_out() with noise sources on raised %s: %s' % (type(e).__name__, str(e)[:100])))
+                break
+            cs = calls_since(k0)
+            seq = [c_['fn'] for c_ in cs]
+            wantseq = (['poisson'] if st['photon'] else []) + ['normal']
+            if seq != wantseq:
+                bad.append(('noise-call-order', 'read_out() with include_photon_noise=%r asked the generator for %r, expected %r' % (st['photon'], seq, wantseq)))
+                break
+            delta = [Fraction(0)] * npix
+            if st['photon']:
+                pc = cs[0]
+                if len(pc['lam']) != npix or any(abs(a - float(b)) > TOL * max(1.0, abs(float(b))) for a, b in zip(pc['lam'], charge)):
+                    bad.append(('photon-noise-expectation', 'the Poisson stage was handed %r; the accumulated charge (binned power*dt*w + dark*dt*w, before '
+                                'flat field and read noise) is %r' % (pc['lam'][:6], [float(x) for x in charge[:6]])))
+                    break
+                delta = [fr(x) for x in pc['d']]
+            nc = cs[-1]
+            sig = [float(x) for x in st['sigma']]
+            if nc['loc'] != [0.0] or nc['size'] != npix or (nc['scale'] != sig and not (len(set(sig)) == 1 and nc['scale'] == sig[:1])):
+                bad.append(('read-noise-draw', 'read noise must be one normal(0, read_noise, %d) draw; the generator was asked for loc=%r scale=%r size=%r'
+                            % (npix, nc['loc'], nc['scale'][:6], nc['size'])))
+                break
+            z = [fr(x) for x in nc['z']]
+            want = [(q + (dl if st['photon'] else 0)) * fl + sg * zz for q, dl, fl, sg, zz in zip(charge, delta, st['flat'], st['sigma'], z)]
+            arr = np.asarray(im, dtype=float)
+            gr = getattr(im, 'grid', None)
+            scale = max([1.0] + [abs(float(x)) for x in want])
+            if arr.shape != (npix,) or gr is None or not (gr is grid or gr == grid):
+                bad.append(('readout-grid', 'noisy read-out has shape %r / does not live on the detector grid' % (arr.shape,)))
+                break
+            if max([abs(float(a) - float(b)) for a, b in zip(arr, want)] + [0.0]) > TOL * scale:
+                bad.append(('noise-pipeline-value', 'read-out differs from ((charge + photon deviation) * flat_field + read_noise * z) by %g (photon noise %s)'
+                            % (max(abs(float(a) - float(b)) for a, b in zip(arr, want)), 'on' if st['photon'] else 'off')))
+                break
+            lines.append('C17 readrng %s %s' % ('[' + ','.join(rat(x) for x in delta) + ']', '[' + ','.join(rat(x) for x in z) + ']'))
+            checks.append((len(lines) - 1, [float(x) for x in arr], [float(x) for x in charge] if st['photon'] else None, want))
+            charge = [Fraction(0)] * npix
+        if bad:
+            break
+    return bad, lines, checks
+
+
+def rng_repro(case):
+    """same seed of the *real* global generator => bit-identical images (every noise source as the case says)"""
+    import hcipy
+    dims = case['dims']
+    grid = hcipy.make_uniform_grid(dims, [d * n for d, n in zip(case['delta'], dims)])
+    c = case['ctor']
+    runs = []
+    state = np.random.get_state()
+    try:
+        for _ in range(2):
+            np.random.seed(case['zseed'] % (2 ** 31))
+            det = hcipy.NoisyDetector(grid, dark_current_rate=param_value(c['dark_current_rate'], grid), read_noise=param_value(c['read_noise'], grid),
+                                      flat_field=param_value(c['flat_field'], grid), include_photon_noise=param_value(c['include_photon_noise'], grid),
+                                      subsampling=sub_arg(case))
+            imgs = []
+            for op in case['ops']:
+                if op[0] == 'set':
+                    setattr(det, op[1], param_value(op[2], grid))
+                if op[0] in ('int', 'call'):
+                    a = np.array(op[2], dtype=float)
+                    det.integrate(hcipy.Field(a, det.input_grid) if op[1] == 'field' else a, op[3], op[4])
+                if op[0] in ('read', 'call'):
+                    imgs.append(np.array(det.read_out(), dtype=float))
+            runs.append(imgs)
+    except Exception as e:  # noqa
+        return [('noisy-history-raises', 'a history on a NoisyDetector with noise sources on raised %s: %s' % (type(e).__name__, str(e)[:100]))]
+    finally:
+        np.random.set_state(state)
+    for k, (a, b) in enumerate(zip(*runs)):
+        if a.shape != b.shape or not np.array_equal(a, b, equal_nan=True):
+            return [('rng-not-reproducible', 'read-out %d differs between two runs of the same history after np.random.seed(%d)' % (k, case['zseed'] % (2 ** 31)))]
+    return []
+
+
 def all_bad(obs):
     return [b for o in obs for b in o['bad']]
 
@@ -944,7 +1193,43 @@ def run(ctx):
         if not bad:
             pa.append((case, len(lines), cmps))
             lines += plines
+    rg = []
+    for k in range(ctx.scale(300, 4000)):
+        case = gen_rng_case(ctx.rng, big=(ctx.tier == 'thorough' and k % 4 == 0))
+        bad, rlines, checks = run_rng_case(case)
+        if not bad:
+            bad = rng_repro(case)
+        for key, what in bad:
+            ctx.violation(key, what, case)
+        nr = sum(1 for op in case['ops'] if op[0] in ('read', 'call'))
+        ctx.count('rng:cases')
+        ctx.count('rng:readouts', nr)
+        ctx.count('rng:readouts-photon-noise-on', sum(1 for c_ in checks if c_[2] is not None))
+        ctx.count('rng:subsampling:' + ('per-axis' if 'ss' in case else str(case['s'])))
+        for prm in PARAMS:
+            ctx.count('rng:ctor:%s:%s' % (prm, case['ctor'][prm][0] + ('-off' if is_off(prm, case['ctor'][prm]) else '-on')))
+        ctx.count('rng:setters', sum(1 for op in case['ops'] if op[0] == 'set'))
+        ctx.case(None, nontrivial_key=('rng', tuple(case['dims']), tuple(factors(case)), nr, tuple(is_off(p_, case['ctor'][p_]) for p_ in PARAMS)))
+        if not bad:
+            rg.append((case, len(lines), checks))
+            lines += rlines
     out = ctx.model(lines)
+    for case, base, checks in rg:
+        for idx, img, lam, want in checks:
+            ctx.traces_validated += 1
+            resp = out[base + idx].split(' ')
+            good = len(resp) == 3 and resp[0] == 'ok'
+            if good:
+                m = parse_rat_list(resp[1])
+                good = m == want and len(m) == len(img) and all(abs(float(a) - b) <= TOL * max(1.0, abs(float(a))) for a, b in zip(m, img))
+                if good and (lam is None) != (resp[2] == '-'):
+                    good = False
+                if good and lam is not None:
+                    ml = parse_rat_list(resp[2])
+                    good = len(ml) == len(lam) and all(abs(float(a) - b) <= TOL * max(1.0, abs(float(a))) for a, b in zip(ml, lam))
+            if not good:
+                ctx.disagree('C17 readrng', {'case': case, 'model': out[base + idx], 'impl': img, 'lam': lam})
+                break
     for case, obs, base in index:
         compare_model(ctx, out, case, obs, base)
     for case, base, cmps in pa:
@@ -959,6 +1244,11 @@ def run(ctx):
 
 
 def replay(ctx, case):
+    if case.get('fam') == 'rng':
+        bad = run_rng_case(case)[0] or rng_repro(case)
+        for key, what in bad:
+            print('  fails:', key, '-', what)
+        return not bad
     if case.get('fam') == 'per-axis':
         bad = run_per_axis(case)[0]
         for key, what in bad:
